@@ -3,11 +3,12 @@ executions of the real frontend/backend recorded by harness/h_sys; scenario fami
 exploration in spec/Quill.tla (pipeline with logger removal) and spec/Registry.tla (logger and sink registries, object
 lifetimes, create/get/remove by name; tools/regmodel.py)."""
 import os
-import sysfam, qsys, regmodel, lockmodel
+import sysfam, qsys, regmodel, lockmodel, removemodel
 
 
 def run(ck):
     lockmodel.run_for(ck)          # the registry lock under release/acquire (spec/SpinlockRA.tla, harness/h_lock)
+    removemodel.run_for(ck)        # the removal flags under release/acquire (spec/RemoveRA.tla, harness/h_remove)
     regmodel.run_for(ck)
     if os.environ.get("VERIF_PART") == "model":      # analysis aid: the design-level part alone
         return
@@ -23,7 +24,10 @@ def run(ck):
 
 def replay(ck, path):
     import json
-    if json.loads(open(path).read())["replay"].get("harness") == "h_lock":
+    hn = json.loads(open(path).read())["replay"].get("harness")
+    if hn == "h_lock":
         lockmodel.replay(path)
+    elif hn == "h_remove":
+        removemodel.replay(path)
     else:
         qsys.replay(path)
